@@ -19,7 +19,7 @@ func init() {
 		Assume: []string{"a row written during the scan may show any state it had inside the scan window; a row that is non-empty in all of those states must be present", "btree engine excluded (it documents that it does not offer this)"},
 		Run:    runC18,
 	})
-	expectedProbes["C18"] = []string{"c18.multi_message", "c18.write_between_messages", "c18.row_deleted_during_scan", "c18.row_inserted_during_scan", "c18.returned_old_state", "c18.returned_new_state", "c18.keys_only_rowset"}
+	expectedProbes["C18"] = []string{"c18.multi_message", "c18.write_between_messages", "c18.row_deleted_during_scan", "c18.row_inserted_during_scan", "c18.returned_old_state", "c18.returned_new_state", "c18.keys_only_rowset", "c18.client_gone_mid_scan"}
 }
 
 type rowVersion struct {
@@ -186,6 +186,14 @@ func runC18(r *Run) {
 			r.Probe("c18.keys_only_rowset")
 		}
 	}
+	// in some runs the client goes away while a batch is being streamed: the n-th Send fails.
+	// The scan may then end with an error, but the server must stay up and release its locks.
+	sendFailAt := -1
+	if cfg.Intn(5) == 4 {
+		sendFailAt = cfg.Intn(3)
+		w.SendFail = func(kind string, nth int) bool { return kind == "ReadRows" && nth == sendFailAt }
+		defer func() { w.SendFail = nil }()
+	}
 	var msgEvt []int64
 	s.Go("scan", func() {
 		evt++
@@ -197,6 +205,7 @@ func runC18(r *Run) {
 	})
 	// stamp each message with the event counter: done through the stream's step stamps
 	v := s.Run()
+	w.SendFail = nil
 	r.FinishSched(s, v)
 	_ = msgEvt
 	r.Sample = map[string]interface{}{"engine": engine, "rows": nRows, "cells_per_row": cellsPerRow, "writers": nWriters, "ops_per_writer": opsPerWriter, "rowset": rowSetString(rowset), "messages": res.Msgs, "steps": s.Steps, "preemptions": s.Pre}
@@ -208,6 +217,15 @@ func runC18(r *Run) {
 	}
 	if res.Bad != nil {
 		r.Fail("malformed-stream", "", "scan: %v", res.Bad)
+		return
+	}
+	if sendFailAt >= 0 && res.Msgs >= sendFailAt && res.Err != nil {
+		// the injected transport failure ended the scan; everything else in the run (writers,
+		// locks, no panic) has been checked by the scheduler verdicts; the table still serves
+		r.Probe("c18.client_gone_mid_scan")
+		if rr := w.ReadAll(tbl); rr.Err != nil || rr.Bad != nil {
+			r.Fail("scan-failed", "", "after a scan whose client went away, a fresh scan fails: %v %v", rr.Err, rr.Bad)
+		}
 		return
 	}
 	if res.Err != nil {
